@@ -43,7 +43,6 @@ func runC13(c *an.Ctx) {
 	ok = c.Need(request, "C13.c", "p2p.(*Exchange).request") && ok
 	ok = c.Need(proc, "C13.b", "p2p.processResponses") && ok
 	ok = c.Need(conv, "C13.b", "p2p.convertStatusCodeToError") && ok
-	ok = c.Need(valChain, "C13.c", "p2p.validateChainID") && ok
 	if !ok {
 		return
 	}
@@ -206,8 +205,36 @@ func runC13(c *an.Ctx) {
 			hd := t.Of(pcs[0]) + "#0"
 			loop := loopOver(t, hd)
 			vcs := callsTo(request, valChain)
-			c.Min("C13.c", "validateChainID calls in request", len(vcs), 1)
-			if loop == nil || len(vcs) != 1 {
+			if valChain == nil && loop != nil && len(loop.Elems) > 0 {
+				// the helper was folded into the loop: the same decision is taken in request itself
+				want := "p0.Params.chainID"
+				mismatch := []an.Fact{an.NE(want, `const("")`), an.NotB("strings.EqualFold(" + want + ",ChainID(" + t.Of(loop.Elems[0]) + "))")}
+				pr := ff.Prune(mismatch...)
+				nn := 0
+				for _, r := range pr.Returns() {
+					if pr.AtInstr(r).Has(loop.InLoop) {
+						nn++
+						c.Check(t.ErrShape(errResult(r)) != "nil", "C13.c", "chain-mismatch-error", "a configured chain id that differs (case-insensitively) from the header's makes request fail", request, r, t.ErrShape(errResult(r)), nil)
+					}
+				}
+				c.Min("C13.c", "returns of request under a chain-id mismatch", nn, 1)
+				for _, pred := range loop.Header.Preds {
+					if ff.Dominates(loop.Header, pred) {
+						c.Check(!pr.Reachable(pred) || pr.Removed(pred, loop.Header), "C13.c", "continue-needs-valid-chain", "the loop continues only when the header's chain id was accepted", request, nil, "", nil)
+					}
+				}
+				n := 0
+				for _, r := range ff.Returns() {
+					if t.ErrShape(errResult(r)) != "nil" {
+						continue
+					}
+					n++
+					fsr := ff.AtInstr(r)
+					c.Check(fsr.Has(loop.InLoop.Neg()) && t.Of(r.Results[0]) == hd && fsr.Has(an.EQ(t.Of(pcs[0])+"#1", "nil")), "C13.c", "nil-return-after-all",
+						"request returns nil-error only after every decoded header passed the chain-id check, returning exactly the decoded headers", request, r, "", fsr)
+				}
+				c.Min("C13.c", "nil-error returns of request", n, 1)
+			} else if loop == nil || len(vcs) != 1 {
 				c.Undecided("C13.c", "chain-loop", "request checks the chain id of every decoded header", request, nil, "no index-walk loop over the decoded headers with one validateChainID call")
 			} else {
 				vc := vcs[0]
@@ -239,14 +266,16 @@ func runC13(c *an.Ctx) {
 				c.Min("C13.c", "nil-error returns of request", n, 1)
 			}
 		}
-		vt, vf := c.T(valChain), c.F(valChain)
-		pr := vf.Prune(an.NE("p0", `const("")`), an.NotB("strings.EqualFold(p0,p1)"))
-		nn := 0
-		for _, r := range pr.Returns() {
-			nn++
-			c.Check(vt.ErrShape(errResult(r)) != "nil", "C13.c", "chain-mismatch-error", "validateChainID returns an error for a configured chain id that differs (case-insensitively) from the header's", valChain, r, vt.ErrShape(errResult(r)), nil)
+		if valChain != nil {
+			vt, vf := c.T(valChain), c.F(valChain)
+			pr := vf.Prune(an.NE("p0", `const("")`), an.NotB("strings.EqualFold(p0,p1)"))
+			nn := 0
+			for _, r := range pr.Returns() {
+				nn++
+				c.Check(vt.ErrShape(errResult(r)) != "nil", "C13.c", "chain-mismatch-error", "validateChainID returns an error for a configured chain id that differs (case-insensitively) from the header's", valChain, r, vt.ErrShape(errResult(r)), nil)
+			}
+			c.Min("C13.c", "returns of validateChainID under mismatch", nn, 1)
 		}
-		c.Min("C13.c", "returns of validateChainID under mismatch", nn, 1)
 	}
 
 	// --- C13.d performRequest
@@ -333,6 +362,40 @@ func runC13(c *an.Ctx) {
 				ev := t.Deref(errResult(r))
 				ph, ok := ev.(*ssa.Phi)
 				if !ok {
+					continue
+				}
+				isHeader := false
+				for _, pred := range ph.Block().Preds {
+					if ff.Dominates(ph.Block(), pred) {
+						isHeader = true
+					}
+				}
+				if !isHeader {
+					// the loop is rotated (`for range n`): the collected error is merged where the loop is
+					// left. Every way the merge can be reached must bring a non-nil error: an edge that
+					// brings nil (no attempt failed yet) has to be infeasible — the loop runs at least once
+					// and is left early only by returns of their own
+					seenPhi := map[*ssa.Phi]bool{}
+					var leafOK func(v ssa.Value, fs an.FactSet, depth int) bool
+					leafOK = func(v ssa.Value, fs an.FactSet, depth int) bool {
+						if k, isK := v.(*ssa.Const); isK && k.IsNil() {
+							return ff.ProveGEFacts(fs, an.Const(0), an.Const(1), 0)
+						}
+						if p2, isPhi := v.(*ssa.Phi); isPhi && depth < 4 {
+							if seenPhi[p2] {
+								return true
+							}
+							seenPhi[p2] = true
+							for _, pe := range ff.PhiOperands(p2) {
+								if !leafOK(pe.Val, pe.Facts, depth+1) {
+									return false
+								}
+							}
+							return true
+						}
+						return fs.Has(an.NE(t.Of(v), "nil")) || fs.Has(an.NE("nil", t.Of(v)))
+					}
+					c.Check(leafOK(ph, nil, 0), "C13.d", "all-failed-only-after-every-peer", "the error collected from failed attempts is returned only after every trusted peer has answered: the loop is left early only through returns of their own and runs at least once, so that error is never nil", perform, r, "merged where the loop is left", nil)
 					continue
 				}
 				okLast := true
